@@ -219,6 +219,55 @@ pub fn run(ctx: &Ctx) -> i32 {
         }
     }
     check::clean_work("C19");
+    // ---- E2 over every trait (compile only): stand-alone Copy / Eq / Ord and the other trait sets the behavioural
+    // observers do not reach, inside the shadowing module
+    {
+        let n2 = ctx.scale(1000, 8000);
+        let trees2 = check::draw(ctx.seed, 0xC192, n2, 520);
+        let mut cfg2 = GenCfg::full();
+        cfg2.plain_types_only = true;
+        cfg2.type_expr = false;
+        cfg2.raw_idents = false;
+        cfg2.pool.retain(|t| *t != Tr::Into);
+        let mut units2: Vec<Unit> = Vec::new();
+        let mut defs2: Vec<(usize, String)> = Vec::new();
+        for (i, t) in trees2.iter().enumerate() {
+            let dna = t.current();
+            let mut d = Dna::new(&dna);
+            let b = gen::build(&mut d, &cfg2);
+            if crate::known::pre_matches(&known, "C01", &b.spec) {
+                continue;
+            }
+            defs2.push((i, b.spec.render_def()));
+            units2.push(Unit {
+                body: format!(
+                    "pub mod hostile {{\nuse educe::Educe;\nuse crate::prelude::*;\n{}\n{}{}}}\n",
+                    behave::shadows_for(&b.spec),
+                    b.spec.render_def(),
+                    b.spec.render_support_impls()
+                ),
+                has_run: false,
+            });
+        }
+        let (outs2, _) = check::eval_units("C19-e2c", &units2, &so, 40, false);
+        for (k, o) in outs2.iter().enumerate() {
+            rep.evaluations += 1;
+            rep.class("E2-shadowed-prelude-all-traits(compile)");
+            rep.nontrivial.insert(fnv64(&defs2[k].1));
+            if let RVerdict::Fail(m) = check::judge_default(o, false) {
+                if let Some(kf) = crate::known::explain(&known, "C19", &{
+                    let dna = trees2[defs2[k].0].current();
+                    let mut d = Dna::new(&dna);
+                    gen::build(&mut d, &cfg2).spec
+                }, &m) {
+                    rep.known(&kf.id, &kf.what);
+                    continue;
+                }
+                rep.violations.push(Failure { msg: format!("[E2 all traits, compile] {m}"), dna: trees2[defs2[k].0].current(), variant: "E2-compile".into(), source: defs2[k].1.clone(), unit_body: Some(units2[k].body.clone()) });
+            }
+        }
+        check::clean_work("C19-e2c");
+    }
     // ---- E1: #![no_std] library, compile only
     let n1 = ctx.scale(1000, 8000);
     let trees1 = check::draw(ctx.seed, 0xC191, n1, 520);
